@@ -71,11 +71,11 @@ def sub(t, m):
 
 
 def check(ctx):
-    s1_identities(ctx)
-    s2_accumulators(ctx)
-    s3_remark(ctx)
+    ctx.sub(s1_identities)
+    ctx.sub(s2_accumulators)
+    ctx.sub(s3_remark)
     from . import c02
-    c02.refused_fill(ctx, 'C03.S2')       # reported P&L reflects accepted fills only
+    ctx.sub(c02.refused_fill, 'C03.S2')       # reported P&L reflects accepted fills only
 
 
 def single(ctx, prop, orc, case):
